@@ -280,7 +280,8 @@ func (d *Document) getOrCreateNumbering(config *ListConfig) string {
 	manager := getNumberingManager()
 
 	// 生成抽象编号键
-	abstractKey := fmt.Sprintf("%s_%s_%d", config.Type, config.BulletSymbol, config.IndentLevel)
+	// 起始编号也是定义的一部分：不同起始编号的列表不能共用同一个抽象编号定义
+	abstractKey := fmt.Sprintf("%s_%s_%d_%d", config.Type, config.BulletSymbol, config.IndentLevel, config.StartNumber)
 
 	// 检查是否已存在抽象编号
 	var abstractNum *AbstractNum
